@@ -25,6 +25,7 @@ class LoopFrame(StackFrame):
     def __init__(self, parent):
         super().__init__(parent)
         self.params = parent.params
+        self.stack_depth = None
         self._loop_var = {}
 
     def get_loop_var(self, index):
@@ -111,6 +112,11 @@ class CallStack:
     def exit_loop(self) -> None:
         self._top = self._top.parent
 
-    def unwind_loops(self) -> None:
+    def unwind_loops(self):
+        # Returns the eval stack depth recorded by the outermost loop that
+        # was abandoned, or None if there was none.
+        depth = None
         while isinstance(self._top, LoopFrame):
+            depth = self._top.stack_depth
             self._top = self._top.parent
+        return depth
